@@ -54,6 +54,23 @@ pub fn roundtrip(spec: &FileSpec) -> Result<usize, (String, String)> {
             return Err(("write".into(), "WriterBuilder::build(&mut Vec) + finish() produces different bytes than memory() + into_inner()".into()));
         }
     }
+    // the convenience constructors carry the defaults themselves
+    if spec.cfg == vlib::fam::FileCfg::plain() {
+        let alt = crate::common::guarded(|| -> Result<(Vec<u8>, Vec<u8>), String> {
+            let mut a = grenad::Writer::memory();
+            let mut b = grenad::Writer::new(Vec::new());
+            for (k, v) in &entries {
+                a.insert(k, v).map_err(|e| e.to_string())?;
+                b.insert(k, v).map_err(|e| e.to_string())?;
+            }
+            Ok((a.into_inner().map_err(|e| e.to_string())?, b.into_inner().map_err(|e| e.to_string())?))
+        })
+        .map_err(|p| ("write".to_string(), format!("Writer::memory()/Writer::new(): {p}")))?
+        .map_err(|e| ("write".to_string(), format!("Writer::memory()/Writer::new(): {e}")))?;
+        if alt.0 != bytes || alt.1 != bytes {
+            return Err(("write".into(), "Writer::memory() / Writer::new(Vec) produce different bytes than the builder left at its defaults".into()));
+        }
+    }
     let model = Model::new(entries);
     // the statement speaks of the forward and the backward scan of the finished file: fresh
     // cursors only (reset/clone behaviour belongs to C02/C03)
